@@ -125,10 +125,12 @@ pub fn family(prop: &str, thorough: bool) -> (Vec<Grammar>, Vec<String>) {
         v.extend(family_of(f, thorough));
         names.push(describe(f, thorough).to_string());
     }
-    if prop == "C11" {
-        v.extend(names_family());
+    if matches!(prop, "C01" | "C02" | "C03" | "C11") {
         v.extend(commit_return_family());
         names.push("COMMIT-RETURN: one ordered choice in EBNF(3,0,2) with exactly one `~` and one `&` inserted (every placement)".to_string());
+    }
+    if prop == "C11" {
+        v.extend(names_family());
         names.push("NAMES: 17 identifier-stressing names as rule, part, rename and creation names, all pairs of them; EMPTY: empty-bodied rules as part / referenced rule, rules reachable only through an unused part".to_string());
     }
     let mut seen = std::collections::HashSet::new();
